@@ -1,0 +1,32 @@
+//go:build verif
+
+// Contracts for the verif build tag: comment-only, read by /verif/engine (govc).
+package edns
+
+//@ # ---- C06 / C19: option filters on client replies: every ECS (resp. keepalive) option is removed, in place
+//@ pred optsWF(os []dns.EDNS0) := forall i int :: {os[i]} 0 <= i && i < len(os) ==> os[i] != nil
+//@
+//@ func stripECS
+//@   modifies elems(opts)
+//@   ensures region(result) == region(opts) && offset(result) == offset(opts) && len(result) <= len(opts)
+//@   ensures forall i int :: {result[i]} 0 <= i && i < len(result) ==> !dyntype(result[i], *dns.EDNS0_SUBNET)
+//@   ensures (forall i int :: {old(opts[i])} 0 <= i && i < len(opts) ==> !dyntype(old(opts[i]), *dns.EDNS0_TCP_KEEPALIVE)) ==> (forall i int :: {result[i]} 0 <= i && i < len(result) ==> !dyntype(result[i], *dns.EDNS0_TCP_KEEPALIVE))
+//@   loop 1 invariant region(keep) == region(opts) && offset(keep) == offset(opts) && cap(keep) == cap(opts) && 0 <= len(keep) && len(keep) <= rangeidx
+//@   loop 1 invariant forall j int :: {keep[j]} 0 <= j && j < len(keep) ==> !dyntype(keep[j], *dns.EDNS0_SUBNET)
+//@   loop 1 invariant forall j int :: {opts[j]} rangeidx <= j && j < len(opts) ==> opts[j] == old(opts[j])
+//@   loop 1 invariant (forall i int :: {old(opts[i])} 0 <= i && i < len(opts) ==> !dyntype(old(opts[i]), *dns.EDNS0_TCP_KEEPALIVE)) ==> (forall j int :: {keep[j]} 0 <= j && j < len(keep) ==> !dyntype(keep[j], *dns.EDNS0_TCP_KEEPALIVE))
+//@
+//@ func stripKeepalive
+//@   modifies elems(opts)
+//@   ensures region(result) == region(opts) && offset(result) == offset(opts) && len(result) <= len(opts)
+//@   ensures forall i int :: {result[i]} 0 <= i && i < len(result) ==> !dyntype(result[i], *dns.EDNS0_TCP_KEEPALIVE)
+//@   ensures (forall i int :: {old(opts[i])} 0 <= i && i < len(opts) ==> !dyntype(old(opts[i]), *dns.EDNS0_SUBNET)) ==> (forall i int :: {result[i]} 0 <= i && i < len(result) ==> !dyntype(result[i], *dns.EDNS0_SUBNET))
+//@   loop 1 invariant region(keep) == region(opts) && offset(keep) == offset(opts) && cap(keep) == cap(opts) && 0 <= len(keep) && len(keep) <= rangeidx
+//@   loop 1 invariant forall j int :: {keep[j]} 0 <= j && j < len(keep) ==> !dyntype(keep[j], *dns.EDNS0_TCP_KEEPALIVE)
+//@   loop 1 invariant forall j int :: {opts[j]} rangeidx <= j && j < len(opts) ==> opts[j] == old(opts[j])
+//@   loop 1 invariant (forall i int :: {old(opts[i])} 0 <= i && i < len(opts) ==> !dyntype(old(opts[i]), *dns.EDNS0_SUBNET)) ==> (forall j int :: {keep[j]} 0 <= j && j < len(keep) ==> !dyntype(keep[j], *dns.EDNS0_SUBNET))
+//@
+//@ func keepOPTOnly
+//@   modifies nothing
+//@   ensures len(result) <= 1
+//@   ensures len(result) == 1 ==> dyntype(result[0], *dns.OPT)
